@@ -34,6 +34,16 @@ ASSUMPTIONS = [
 
 def cases(tier: str, seed: int) -> List[Dict[str, Any]]:
     out = lattice_cases(tier, seed)
+    # call HISTORIES: the same op / factor used with several dtypes in sequence inside one process
+    # ("never varies ... between repeated calls"): low precision first, then high precision
+    from models.ops import OPS
+
+    for name in OPS:
+        for seq in (["bfloat16", "float64"], ["float16", "float32", "float64"], ["float64", "bfloat16", "float64"]):
+            out.append({"kind": "dtype_history", "op": name, "seq": seq, "seed": seed})
+    for f in (0.1, 3.0, -0.3):
+        for prim in ("scale_fwd", "scale_bwd"):
+            out.append({"kind": "prim_history", "prim": prim, "factor": f, "seq": ["float16", "bfloat16", "float32", "float64"]})
     for prim, f, sh, dt in itertools.product(["scale_fwd", "scale_bwd"], FACTORS, PSHAPES,
                                              ["float64", "float32", "bfloat16", "float16"]):
         out.append({"kind": "prim", "prim": prim, "factor": f, "shape": sh, "dtype": dt, "seed": seed})
@@ -47,6 +57,26 @@ def run_case(case: Dict[str, Any]) -> Dict[str, Any]:
     from models.probe import TOL, probe
 
     viol: List[Dict[str, str]] = []
+    if case["kind"] == "dtype_history":
+        from models.ops import default_cfg
+
+        op = OPS[case["op"]]
+        base = default_cfg(op)
+        sub = []
+        for dt in case["seq"]:
+            r = run_case({"kind": "probe", "op": case["op"], "cfg": dict(base, dtype=dt), "seed": case["seed"]})
+            if r.get("skipped"):
+                continue
+            for v in r["violations"]:
+                sub.append({"key": v["key"] + f"|after_dtypes={'>'.join(case['seq'][:case['seq'].index(dt)]) or 'none'}", "msg": v["msg"]})
+        return {"violations": sub[:4], "steps": len(case["seq"]), "outcome": "dtype_history", "nontrivial": True}
+    if case["kind"] == "prim_history":
+        sub = []
+        for i, dt in enumerate(case["seq"]):
+            r = run_case({"kind": "prim", "prim": case["prim"], "factor": case["factor"], "shape": [5], "dtype": dt, "seed": 0})
+            for v in r["violations"]:
+                sub.append({"key": v["key"] + f"|after_dtypes={'>'.join(case['seq'][:i]) or 'none'}", "msg": v["msg"]})
+        return {"violations": sub[:4], "steps": len(case["seq"]), "outcome": "prim_history", "nontrivial": True}
     if case["kind"] == "prim":
         from unit_scaling import scale as S
 
